@@ -9,7 +9,7 @@ DEFAULTS = dict(
     p_opt_existing=.15, p_single_opt=.06, p_dup_id=0.0,
     n_incompat=(0, 2), p_incompat=.5,
     p_constraint=0.0, n_conn=(0, 0), p_grp=.3, p_excl=.3, p_conn_cond=.6, p_side_cond=0., p_grp_open=0., max_side=3, max_side_total=5,
-    n_dv=(0, 0), p_dv_cond=.6, p_dv_link=.0, n_metric=(0, 0),
+    n_dv=(0, 0), p_dv_cond=.6, p_dv_link=.0, p_dv_dup_label=0., n_metric=(0, 0), p_metric_below_conn=0.,
     exotic=False, allow=(), forbid=(),
 )
 
@@ -203,6 +203,8 @@ def _grow(rnd, o):
                                                   [0.5, 2]]))
         else:
             d = new('dv', 'D', options=['o%d' % i for i in range(rnd.randint(1, 4))])
+        if o['p_dv_dup_label'] > 0 and rnd.random() < o['p_dv_dup_label']:
+            [nd for nd in nodes if nd['id'] == d][0]['label'] = 'size%d' % rnd.randint(0, 1)
         add_edge(rnd.choice(pool), d)
         dvs.append(d)
     if len(dvs) >= 2 and rnd.random() < o['p_dv_link']:
@@ -219,7 +221,11 @@ def _grow(rnd, o):
     for _ in range(rnd.randint(*o['n_metric'])):
         m = new('metric', 'M', dir=rnd.choice([None, -1, 1]), ref=rnd.choice([None, 0.0, 2.5, -1.0]),
                 type=rnd.choice([None, None, 'OBJECTIVE', 'CONSTRAINT', 'NONE']))
-        add_edge(rnd.choice(named), m)
+        conns_ = [nd['id'] for nd in nodes if nd['kind'] == 'conn']
+        if conns_ and o['p_metric_below_conn'] > 0 and rnd.random() < o['p_metric_below_conn']:
+            add_edge(rnd.choice(conns_), m)     # a metric of a (possibly conditional) port
+        else:
+            add_edge(rnd.choice(named), m)
 
     return S.normalize({'nodes': nodes, 'edges': edges, 'sel': sel, 'incompat': incompat,
                         'constraints': cons, 'conn': conn, 'start': start})
